@@ -36,6 +36,18 @@ ARM_TEXTS = [
 ]
 
 
+# edge parameters (zero / one / negative coefficients and exponents, zero constants, identical
+# operands) in every rule's simple and chained positions; every shard drives all of them
+EDGE_TEXTS = [
+    "0x + 2x", "5x + 0x", "0x^2 + 3x^2", "0 + 2x", "2x + 0", "0x + 0x", "0x + 2y", "4z + (0x + (2x + y))", "(4 + 0x) + 2x", "2x * 0 + 3x", "(3 - 3) * x + 2x",
+    "1x + 1x", "-x + x", "x - x", "-1x + 1x", "x + x", "x^0 + x^0", "x^1 + x", "0.0x + 2x", "-0x + x", "0x * 3x", "0 * x", "x * 0", "x^0 * x^0", "x^1 * x", "x^-1 * x",
+    "0x = 0", "0 = 0x", "2x = 0", "0 + x = 0", "x + 0 = 0 + y", "1x = 1", "-x = -1", "x / 1", "0 / x", "x / -1", "1 / -x", "0 - x", "x - 0", "x - -0", "0 - -x", "4 + -0",
+    "4 + -0x", "0 + 0", "0 * 0", "0 - 0", "0^0", "1^0", "0^1", "2^0", "-(0 + 0)", "-(0 * 5)", "(0x * 2) + 3", "0 + (0 + x)", "0 * (0 * x)", "1 * (1 * x)", "(0q * 10y^3) * x",
+    "x * (y + 0)", "0 * (x + y)", "(x + x) * (x + x)", "(x + y) + (x + y)", "(x * x) * (x * x)", "x * (x * x)", "2x^2 * 2x^2", "x = x", "x + 1 = x + 1", "2x + 1 = 2x + 1",
+    "1.5x + 1.5x", "0.1x + 0.2x", "0.1 + 0.2", "0.1 * 3", "1 / 3", "2 / 3 * 3", "10 * 0.1", "1000000 * 1000000", "99999 * 99999 + 1", "7x + 7x^1", "x^2 + x^2.0",
+]
+
+
 def required_apply_arms(minimum=3, rules=None):
     req = {}
     for label, tags in ARMS.items():
@@ -78,6 +90,8 @@ def start_texts(cfg, rng, n_random, equations=0.25):
     corp = WT.corpus()
     for s in ARM_TEXTS:
         yield "arm-text", s, []
+    for s in EDGE_TEXTS:
+        yield "edge-text", s, []
     for i, s in enumerate(corp):
         if cfg.mine(i):
             yield "corpus", s, []
